@@ -44,7 +44,39 @@ theorem reset_rate (mi : Nat) (h : List (Nat × Nat × Nat)) (t0 : Nat) (hm : Re
     List.Pairwise (fun a b => a + mi ≤ b) (Reset.sentTimes mi ⟨none⟩ h) :=
   (Reset.sentTimes_spaced mi h ⟨none⟩ t0 hm (by intro l hl; cases hl)).2
 
+/-- "Until a peer address is validated (by a Handshake packet from it, a valid Retry or validation token, or a
+    successful path challenge)": over EVERY history that starts unvalidated, the path counts as validated at the end
+    only if the history contains one of exactly these causes — a Handshake packet of the peer processed, a token the
+    endpoint issued presented, a PATH_RESPONSE matching a challenge — and no migration came after it. -/
+theorem validated_only_by_cause (evs : List Amp.Ev) (s r : Nat)
+    (h : (Amp.run ⟨false, s, r⟩ evs).validated = true) :
+    ∃ pre c post, evs = pre ++ c :: post ∧ c.isCause = true ∧ ∀ e ∈ post, ∀ n, e ≠ .migrate n :=
+  Amp.run_validated_cause evs ⟨false, s, r⟩ rfl h
+
+/-- … and conversely a history without any of the causes (received datagrams of any size from any address, polls,
+    migrations) never validates: the 3x bound of `amp_bound` stays in force throughout. -/
+theorem no_cause_never_validated (evs : List Amp.Ev) (s r : Nat) (hc : ∀ e ∈ evs, e.isCause = false) :
+    (Amp.run ⟨false, s, r⟩ evs).validated = false :=
+  Amp.run_no_cause evs ⟨false, s, r⟩ rfl hc
+
+/-- The verdict the trace validation applies to every datagram a real connection handles (`amp rx` / `amp foreign`,
+    cause bits derived by the harness from the PEER's transmit record): "must stay unvalidated" is issued exactly when
+    the datagram stands for no cause, "must be validated" only for a path that already was; with a cause the outcome is
+    left open (the property permits validation, it does not demand it). -/
+theorem rx_verdict_sound (p : Amp.Path) (hs pr b : Bool) (h : Amp.rxVerdict p.validated hs pr = some b) :
+    (b = false → hs = false ∧ pr = false ∧ (Amp.run p (Amp.rxEvents hs pr)).validated = false) ∧
+    (b = true → p.validated = true) :=
+  Amp.rxVerdict_sound p hs pr b h
+
+theorem rx_verdict_open (p : Amp.Path) (hs pr : Bool) (hv : p.validated = false) (hc : (hs || pr) = true) :
+    Amp.rxVerdict p.validated hs pr = none ∧ (Amp.run p (Amp.rxEvents hs pr)).validated = true :=
+  Amp.rxVerdict_open p hs pr hv hc
+
 -- non-vacuity
+example : (Amp.run ⟨false, 0, 1200⟩ [.recv 1200, .poll 1200 [1200], .handshakePacketProcessed, .poll 1200 [1200, 1200, 1200, 1200, 1200, 1200, 1200]]).validated = true := by decide
+example : (Amp.run ⟨false, 0, 1200⟩ [.tokenValidated, .migrate 40, .recv 40, .foreign 1200]).validated = false := by decide
+example : Amp.rxVerdict false false false = some false ∧ Amp.rxVerdict false true false = none
+    ∧ Amp.rxVerdict false false true = none ∧ Amp.rxVerdict true false false = some true := by decide
 example : (Amp.run ⟨false, 0, 1200⟩ [.poll 1200 [1200, 1200, 1200, 1200], .recv 50, .poll 1200 [1200, 1200]]).sent = 4800 := by decide
 example : Reset.resetSize 100 40 = some 56 ∧ Reset.resetSize 21 0 = none ∧ Reset.resetSize 30 0 = some 29 := by decide
 example : Reset.sentTimes 20 ⟨none⟩ [(0, 100, 40), (5, 100, 40), (20, 100, 40), (30, 100, 40), (41, 50, 30)] = [0, 20, 41] := by decide
